@@ -198,7 +198,7 @@ class MultiSW(object):
     lst = S.SimSocket(sim, "ctl-listener")
     lst.bind(("0.0.0.0", 6633))
     lst.listen(16)
-    accepted = []
+    accepted = self.accepted = []
 
     def on_accept(l, srv):
       srv.recv_all = True
